@@ -45,6 +45,7 @@ def run(ctx):
     ctx.rule(carry)
     ctx.rule(shift_register)
     ctx.rule(carry_reset)
+    ctx.rule(_frames_not_written)
 
 
 def driver(ctx, R="R-C01-driver"):
@@ -602,3 +603,12 @@ def carry_reset(ctx):
     prog = ctx.prog
     for cname in ("compute.ShortTimeFourierTransformFrameComputer", "compute.ShortIntegrationFrameComputer"):
         c04.reset(ctx, prog.cls(cname), R="R-C01-carry-reset")
+
+
+def _frames_not_written(ctx, R="R-C01-frame-aliasing"):
+    """Frames are views: of the padded signal in compute_full, of the caller's chunk or of the ring buffer in compute_chunk
+    (a private copy only when a frame straddles both).  A per-frame routine that writes into its frame changes samples that
+    later, overlapping frames read - by amounts that depend on where the chunk boundaries fall.  Decided by the effect
+    analysis shared with C04: nothing reachable from compute_chunk / compute_full writes through an alias of the input."""
+    from .c04 import readonly
+    readonly(ctx, R)
